@@ -309,7 +309,8 @@ def extract(unit, ex):
                 p2 = pat(ex["stmts_to"])
                 e2 = find_seq(toks, p2, o, bc)
                 if e2 < 0: raise ExtractError("anchor lost: %r in %s" % (ex["stmts_to"], ex["within"]))
-                while toks[e2 - 1].s not in (";", "{", "}"): e2 -= 1
+                if not ex.get("stmts_to_exact"):      # default: stop before the statement that contains the anchor
+                    while toks[e2 - 1].s not in (";", "{", "}"): e2 -= 1
                 end = e2
             frag = [t.copy() for t in toks[o:end]]
             fstart = o
